@@ -347,6 +347,8 @@ func checkC08(c *Ctx) {
 	c8SingleRelease(c)
 	c8Ownership(c)
 	c8CloneOwnership(c, "R8.5")
+	c.Rule("R8.8", "zapio.Writer: what is logged for a line depends on the bytes of that line only (the reassembly buffer never keeps bytes of a line that was already handed to the logger)", 5)
+	c17Rules(c, "R8.8")
 	c.Rule("R8.7", "no value built from a parent shares a slice tail with it (what a derived handler or an emitted entry holds cannot be overwritten by deriving or logging again)", 1)
 	c7AppendsAll(c, "R8.7")
 	c.Rule("R8.6", "encoding an entry never modifies the logger's shared encoder (what an entry looks like cannot depend on the entries logged before it)", 3)
